@@ -26,6 +26,7 @@ import (
 	"bytes"
 	"context"
 	crand "crypto/rand"
+	"encoding/json"
 	"fmt"
 	"io"
 	"strings"
@@ -43,6 +44,7 @@ import (
 	"google.golang.org/grpc/metadata"
 	"google.golang.org/protobuf/proto"
 
+	"berty.tech/go-ipfs-log/entry"
 	"berty.tech/weshnet/v2/pkg/errcode"
 	"berty.tech/weshnet/v2/pkg/ipfsutil"
 	"berty.tech/weshnet/v2/pkg/protocoltypes"
@@ -157,6 +159,7 @@ type vfcaWorld struct {
 	cleanup func()
 	s       *service
 	grpc    bool
+	nowait  bool   // start-race probe only: do not wait for the account group's set-up to settle
 	acctPK  []byte // account group public key
 	selfRaw []byte // account (member) public key
 	selfPK  crypto.PubKey
@@ -195,13 +198,45 @@ func (w *vfcaWorld) open(first bool) {
 	}
 	// the activation of the account group announces the device and then (from its event handler, asynchronously)
 	// publishes the device's chain key: wait for both entries so that no append of the set-up is counted for a step
-	deadline := time.Now().Add(30 * time.Second)
-	for len(w.ms().OpLog().Values().Slice()) < 2 {
+	// ... and until that second append is complete (BaseStore.AddOperation appends to the log first and persists the
+	// new head afterwards, without mutual exclusion between writers): the script's requests must not race with it
+	if w.nowait {
+		return
+	}
+	deadline := time.Now().Add(60 * time.Second)
+	for len(w.ms().OpLog().Values().Slice()) < 2 || !w.headsPersisted() {
 		if time.Now().After(deadline) {
-			vfInfra("account group set-up did not append its two entries within 30s")
+			vfInfra("account group set-up did not settle (two entries, persisted heads = log heads) within 60s")
 		}
 		time.Sleep(2 * time.Millisecond)
 	}
+}
+
+// headsPersisted: the heads the store would load after a restart ("_localHeads" of its cache) are the heads of its log
+func (w *vfcaWorld) headsPersisted() bool {
+	ms := w.ms()
+	b, err := ms.Cache().Get(w.ctx, datastore.NewKey("_localHeads"))
+	if err != nil {
+		return false
+	}
+	var hs []*entry.Entry
+	if err := json.Unmarshal(b, &hs); err != nil {
+		return false
+	}
+	have := map[string]bool{}
+	for _, h := range hs {
+		have[h.GetHash().String()] = true
+	}
+	heads := ms.OpLog().Heads().Slice()
+	if len(heads) != len(have) {
+		return false
+	}
+	for _, h := range heads {
+		if !have[h.GetHash().String()] {
+			return false
+		}
+	}
+	return true
 }
 
 func (w *vfcaWorld) ms() *MetadataStore {
@@ -235,8 +270,13 @@ func (w *vfcaWorld) destroy() { w.stop() }
 // handler is reported as its own error (the lifecycle clauses then treat the call as refused)
 func vfcaCall[Q any, R any](w *vfcaWorld, d func(*service, context.Context, *Q) (*R, error),
 	c func(protocoltypes.ProtocolServiceClient, context.Context, *Q, ...grpc.CallOption) (*R, error), req *Q) (rep *R, err error) {
-	ctx, cancel := context.WithTimeout(w.ctx, 30*time.Second)
+	ctx, cancel := context.WithTimeout(w.ctx, 120*time.Second)
 	defer cancel()
+	defer func() {
+		if ctx.Err() != nil { // an overloaded machine is not a refusal
+			vfInfra("request did not return within 120s")
+		}
+	}()
 	if w.grpc {
 		return c(w.tp.Client, ctx, req)
 	}
@@ -556,6 +596,7 @@ func vfcaScriptRun(t testing.TB, sc vfScript) []map[string]any {
 		tAct := time.Now()
 		switch st.Act {
 		case "restart":
+			ev["ph"] = w.headsPersisted() // what a restart will load is what the log holds (sequential requests: always)
 			w.stop()
 			w.open(false)
 			ev["grew"] = len(r.appended())
@@ -695,6 +736,44 @@ func vfcaScriptRun(t testing.TB, sc vfScript) []map[string]any {
 		out = append(out, ev)
 	}
 	return out
+}
+
+// Probe (not part of the verdict): requests issued IMMEDIATELY after the service started race with the account
+// group's own asynchronous set-up append (chain key); counts how often the restarted service lost them.
+func TestVerifContactApiStartRace(t *testing.T) {
+	n := vfEnvInt("VERIF_RACE_N", 0)
+	if n == 0 {
+		t.Skip("VERIF_RACE_N not set")
+	}
+	lost, stale := 0, 0
+	for i := 0; i < n; i++ {
+		w := &vfcaWorld{t: &vfcaTB{TB: t}, ctx: context.Background(), nowait: true,
+			dsRoot: dssync.MutexWrap(datastore.NewMapDatastore()), dsSS: dssync.MutexWrap(datastore.NewMapDatastore())}
+		w.open(true)
+		_, pk, _ := crypto.GenerateEd25519Key(crand.Reader)
+		raw, _ := pk.Raw()
+		_, err := w.s.ContactBlock(w.ctx, &protocoltypes.ContactBlock_Request{ContactPk: raw})
+		if err != nil {
+			vfInfra("block: %v", err)
+		}
+		time.Sleep(300 * time.Millisecond) // let the set-up finish
+		before := len(w.ms().OpLog().Values().Slice())
+		okHeads := w.headsPersisted()
+		w.stop()
+		w.nowait = false
+		w.open(false)
+		_, has := w.ms().ListContacts()[string(raw)]
+		after := len(w.ms().OpLog().Values().Slice())
+		if !okHeads {
+			stale++
+		}
+		if !has {
+			lost++
+		}
+		fmt.Printf("VF-RACE run=%d entries before restart=%d after=%d persisted heads current=%v blocked contact still reported=%v\n", i, before, after, okHeads, has)
+		w.destroy()
+	}
+	fmt.Printf("VF-RACE-SUMMARY runs=%d stale_persisted_heads=%d block_lost_after_restart=%d\n", n, stale, lost)
 }
 
 func TestVerifContactApi(t *testing.T) {
